@@ -378,12 +378,8 @@ func (c *Ctx) RuleResolve() *Result {
 								continue
 							}
 							els := variadicElems(sl)
-							if len(els) >= 2 {
-								if dc, ok := stripConv(els[0]).(*ssa.Call); ok {
-									if df := staticCallee(&dc.Call); df != nil && df.Name() == "AssemblyDir" {
-										okUse = true
-									}
-								}
+							if len(els) >= 2 && c.isAssemblyDir(els[0], 0) {
+								okUse = true
 							}
 						}
 					}
@@ -645,11 +641,7 @@ func (c *Ctx) RuleResolve() *Result {
 				if len(els) < 2 {
 					return
 				}
-				dc, ok := stripConv(els[0]).(*ssa.Call)
-				if !ok {
-					return
-				}
-				if df := staticCallee(&dc.Call); df == nil || df.Name() != "AssemblyDir" {
+				if !c.isAssemblyDir(els[0], 0) {
 					return
 				}
 				res.Instances++
@@ -928,6 +920,8 @@ func (c *Ctx) RuleOrderKey() *Result {
 				assigns++
 				if p, ok := st.Val.(*ssa.Phi); ok && phiSteps(p, +1) {
 					counters++
+				} else if capturedCounter(st.Val, g) {
+					counters++
 				}
 			})
 		}
@@ -1008,4 +1002,79 @@ func paramJoinedBelowAssemblyDir(p *ssa.Parameter) bool {
 		}
 	}
 	return uses > 0 && uses == joined
+}
+
+// capturedCounter: v is the current value of a variable captured by the closure fn that
+// the closure increments by one (and nothing else writes except a constant initialisation in
+// the parent): the running index of a visit callback.
+func capturedCounter(v ssa.Value, fn *ssa.Function) bool {
+	ld, ok := v.(*ssa.UnOp)
+	if !ok || ld.Op != token.MUL {
+		return false
+	}
+	fv, ok := ld.X.(*ssa.FreeVar)
+	if !ok {
+		return false
+	}
+	incs := 0
+	for _, r := range referrers(fv) {
+		st, ok := r.(*ssa.Store)
+		if !ok || st.Addr != ssa.Value(fv) {
+			continue
+		}
+		b, ok := st.Val.(*ssa.BinOp)
+		if !ok || b.Op != token.ADD {
+			return false
+		}
+		l2, ok := b.X.(*ssa.UnOp)
+		if !ok || l2.X != ssa.Value(fv) {
+			return false
+		}
+		if k, ok := constInt(b.Y); !ok || k != 1 {
+			return false
+		}
+		incs++
+	}
+	if incs != 1 {
+		return false
+	}
+	al := allocOf(fv, fn)
+	if al == nil {
+		return false
+	}
+	for _, r := range referrers(al) {
+		if st, ok := r.(*ssa.Store); ok && st.Addr == ssa.Value(al) {
+			if _, isConst := st.Val.(*ssa.Const); !isConst {
+				return false
+			}
+		}
+	}
+	return true
+}
+
+// isAssemblyDir: v is the result of AssemblyDir(), or a parameter that every static caller fills with it.
+func (c *Ctx) isAssemblyDir(v ssa.Value, depth int) bool {
+	v = stripConv(v)
+	if dc, ok := v.(*ssa.Call); ok {
+		df := staticCallee(&dc.Call)
+		return df != nil && df.Name() == "AssemblyDir"
+	}
+	par, ok := v.(*ssa.Parameter)
+	if !ok || depth > 2 {
+		return false
+	}
+	fn := par.Parent()
+	pi := paramIndex(fn, par)
+	n := 0
+	for _, e := range c.Graph().In[fn] {
+		cc := callCommon(e.Site)
+		if cc == nil || staticFn(cc) != fn || pi < 0 || pi >= len(cc.Args) {
+			return false
+		}
+		n++
+		if !c.isAssemblyDir(cc.Args[pi], depth+1) {
+			return false
+		}
+	}
+	return n > 0
 }
